@@ -52,7 +52,7 @@ def run_shard(ctx):
     mon_dsep.install()
     rng = ctx.rng
     hostile_seen, qcls = {}, {}
-    for i in range(ctx.share({"quick": 3000, "thorough": 30000}[ctx.tier])):
+    for i in range(ctx.share({"quick": 9000, "thorough": 30000}[ctx.tier])):
         n = rng.choice([3, 4, 4, 5, 5])
         gd = gg.random_admg(rng, n, hostile=rng.choice(gg.HOSTILE + ("bichain", "bichain")))
         q = gq.random_query(rng, gd, with_conditions=True, allow_empty_x=True)
@@ -74,7 +74,7 @@ def run_shard(ctx):
     # feedback: IDC cases whose trace reached ID's line 7 (rare) are kept and mutated
     fb = {"line7_cases": 0, "line7_then_line6": 0}
     pool = list(POOL)
-    for i in range(ctx.share({"quick": 1000, "thorough": 40000}[ctx.tier])):
+    for i in range(ctx.share({"quick": 3000, "thorough": 40000}[ctx.tier])):
         if pool and rng.random() < 0.85:
             gd, q = rng.choice(pool)
             gd = gg.mutate(gd, rng)
@@ -102,7 +102,7 @@ def run_shard(ctx):
     from y0.algorithm.identify import identify_outcomes
     from y0.dsl import Variable
 
-    for _ in range(ctx.share({"quick": 60, "thorough": 1500}[ctx.tier])):
+    for _ in range(ctx.share({"quick": 160, "thorough": 1500}[ctx.tier])):
         gd = gg.random_admg(rng, rng.randint(3, 5))
         g = gg.to_nx(gd)
         for _s in range(8):
